@@ -54,3 +54,9 @@ func (env *Environment) ForceStateForVerif(s string) { env.Sm.SetState(s) }
 
 // CancelPendingForVerif runs the manager's cancellation of never-awaited calls.
 func CancelPendingForVerif(env *Environment) { (&Manager{}).cancelCallsPendingAwait(env) }
+
+// SetWorkflowForVerif replaces the workflow tree (a wrapper that also carries hook tasks).
+func (env *Environment) SetWorkflowForVerif(wf workflow.Role) { env.workflow = wf }
+
+// SetHookHandlerForVerif replaces the function that asks the task manager to trigger hook tasks.
+func (env *Environment) SetHookHandlerForVerif(f func(task.Tasks) error) { env.hookHandlerF = f }
